@@ -478,11 +478,11 @@ type rowObs struct {
 	quota uint32
 }
 
-func describe(b *bucketSpec, fixedOver int) string {
+func describe(b *bucketSpec, fixedOver, fixedFit int) string {
 	c := b.cfg
 	var sb strings.Builder
-	fmt.Fprintf(&sb, "cfg=%c%c%c%c%c%c%c%c rng=%c nometa=%c budget=%d fixedover=%d rows[id:size:whale:metric:fixed]=",
-		b01(c.agent), b01(c.keepSingle), b01(c.disableNSA), b01(c.budgets), b01(c.nss), b01(c.groups), b01(c.keys), b01(c.quota), b01(c.rng), b01(c.noMeta), b.budget, fixedOver)
+	fmt.Fprintf(&sb, "cfg=%c%c%c%c%c%c%c%c rng=%c nometa=%c budget=%d fixedover=%d fixedfit=%d rows[id:size:whale:metric:fixed]=",
+		b01(c.agent), b01(c.keepSingle), b01(c.disableNSA), b01(c.budgets), b01(c.nss), b01(c.groups), b01(c.keys), b01(c.quota), b01(c.rng), b01(c.noMeta), b.budget, fixedOver, fixedFit)
 	for i, rw := range b.rows {
 		if sb.Len() > 260 {
 			fmt.Fprintf(&sb, "...(%d rows)", len(b.rows))
@@ -539,7 +539,7 @@ type failer struct {
 	o *vu.Out
 }
 
-var c05Oracles = map[string]bool{"no_panic": true, "each_row_once": true, "small_row_discarded_maxfloat": true, "kept_sf_ge_1": true,
+var c05Oracles = map[string]bool{"no_panic": true, "each_row_once": true, "small_row_discarded_maxfloat": true, "kept_sf_ge_1": true, "kept_sf_ge_1_fixed_metric_within_budget": true,
 	"no_sample_agent_kept": true, "quota_factors": true, "random_keep_is_draw_below_inverse_factor": true, "row_carries_selection_factor": true,
 	"kept_without_selection_has_factor_1": true}
 
@@ -582,12 +582,16 @@ func evalCase(o0 *vu.Out, b *bucketSpec, seed uint64) (skipped bool) {
 			anyFixedRow = true
 		}
 	}
+	fixedFit := 0 // fixed-budget metrics whose size is within their own budget
 	for m, sz := range msize {
 		if c.budgets && m.budget != 0 && int64(m.budget) < sz {
 			fixedOver++
 		}
+		if c.budgets && m.budget != 0 && int64(m.budget) >= sz {
+			fixedFit++
+		}
 	}
-	input := describe(b, fixedOver)
+	input := describe(b, fixedOver, fixedFit)
 	// Coq term
 	var rows, ob, perms, rd, sd []string
 	sorted := append([]*rowSpec(nil), b.rows...)
@@ -710,8 +714,12 @@ func evalCase(o0 *vu.Out, b *bucketSpec, seed uint64) (skipped bool) {
 		if ro.kept {
 			keptSize += int64(rw.size)
 			quotaSum += int64(ro.quota)
-			if ro.sf < 1 {
-				o.Fail("kept_sf_ge_1", line, input) // a keep probability cannot exceed 1
+			if ro.sf < 1 { // a keep probability cannot exceed 1
+				if c.budgets && rw.m.budget != 0 && int64(rw.m.budget) >= msize[rw.m] {
+					o.Fail("kept_sf_ge_1_fixed_metric_within_budget", line, input)
+				} else {
+					o.Fail("kept_sf_ge_1", line, input)
+				}
 			}
 		}
 		nsa := rw.m.nsa && !rw.m.missing && !(rw.m.viaStorage && c.noMeta)
@@ -852,6 +860,21 @@ func main() {
 			}
 		}
 		o.Finding("F-C05", got)
+		evalCase(o, b, 1)
+	}
+	{ // F-C05b: metric 2 (size 5) exceeds its share of the bucket budget 2; metric 1 (size 10) is within its own fixed budget 15
+		// but is sorted after it, goes through sampler.sample and is kept with SF = 10/15
+		m1 := &metricSpec{id: 1, ns: 1, group: 11, mw: 1, budget: 15}
+		m2 := &metricSpec{id: 2, ns: 1, group: 11, mw: 1}
+		b := witness(cfgSpec{budgets: true}, 2, []*metricSpec{m1, m2}, []*rowSpec{{id: 0, m: m1, size: 10}, {id: 1, m: m2, size: 5}})
+		res := runReal(b, 1)
+		got := "gone"
+		for _, e := range res.events {
+			if e.row == 0 && e.kind == 0 && e.sf < 1 {
+				got = "reproduced"
+			}
+		}
+		o.Finding("F-C05b", got)
 		evalCase(o, b, 1)
 	}
 	{ // F-C06: sizes 1,1,1,100 with the heavy row a whale, budget 52: kept size 100+ > 52
